@@ -1,0 +1,116 @@
+// Verification hooks (compiled only with `--cfg substrate_fixed_verif`): thin public wrappers around
+// crate-private functions so that external proof harnesses and replay programs can call the real code.
+// They contain no logic of their own.
+#![allow(missing_docs)]
+use crate::arith::MulDivOverflow;
+use crate::float_helper::FloatHelper;
+use crate::helpers::{FloatKind, ToFixedHelper, ToFloatHelper, Widest};
+use crate::int_helper::IntHelper;
+use crate::wide_div::WideDivRem;
+use core::cmp::Ordering;
+use core::sync::atomic::{AtomicU64, Ordering as AtomicOrdering};
+
+static LOOP_TICKS: AtomicU64 = AtomicU64::new(0);
+#[inline]
+pub fn tick() {
+    LOOP_TICKS.fetch_add(1, AtomicOrdering::Relaxed);
+}
+pub fn reset_ticks() {
+    LOOP_TICKS.store(0, AtomicOrdering::Relaxed);
+}
+pub fn ticks() -> u64 {
+    LOOP_TICKS.load(AtomicOrdering::Relaxed)
+}
+
+#[derive(Clone, Copy, Debug, PartialEq, Eq)]
+pub struct Conv {
+    pub neg_variant: bool,
+    pub bits: u128,
+    pub dir: i8,
+    pub overflow: bool,
+}
+fn conv(c: ToFixedHelper) -> Conv {
+    let (neg_variant, bits) = match c.bits {
+        Widest::Unsigned(b) => (false, b),
+        Widest::Negative(b) => (true, b as u128),
+    };
+    let dir = match c.dir {
+        Ordering::Less => -1,
+        Ordering::Equal => 0,
+        Ordering::Greater => 1,
+    };
+    Conv {
+        neg_variant,
+        bits,
+        dir,
+        overflow: c.overflow,
+    }
+}
+#[derive(Clone, Copy, Debug, PartialEq, Eq)]
+pub enum Kind {
+    NaN,
+    Infinite { neg: bool },
+    Finite { neg: bool, conv: Conv },
+}
+fn kind(k: FloatKind) -> Kind {
+    match k {
+        FloatKind::NaN => Kind::NaN,
+        FloatKind::Infinite { neg } => Kind::Infinite { neg },
+        FloatKind::Finite { neg, conv: c } => Kind::Finite { neg, conv: conv(c) },
+    }
+}
+pub fn to_float_kind_f32(x: f32, dst_frac: u32, dst_int: u32) -> Kind {
+    kind(x.to_float_kind(dst_frac, dst_int))
+}
+pub fn to_float_kind_f64(x: f64, dst_frac: u32, dst_int: u32) -> Kind {
+    kind(x.to_float_kind(dst_frac, dst_int))
+}
+pub fn from_to_float_f32(neg: bool, abs: u128, frac: u32, int: u32) -> f32 {
+    <f32 as FloatHelper>::from_to_float_helper(ToFloatHelper { neg, abs }, frac, int)
+}
+pub fn from_to_float_f64(neg: bool, abs: u128, frac: u32, int: u32) -> f64 {
+    <f64 as FloatHelper>::from_to_float_helper(ToFloatHelper { neg, abs }, frac, int)
+}
+
+macro_rules! int_hooks {
+    ($($T:ident, $tfh:ident, $mul:ident, $div:ident;)*) => { $(
+        pub fn $tfh(x: $T, src_frac: i32, dst_frac: u32, dst_int: u32) -> Conv {
+            conv(x.to_fixed_helper(src_frac, dst_frac, dst_int))
+        }
+        pub fn $mul(a: $T, b: $T, frac_nbits: u32) -> ($T, bool) {
+            a.mul_overflow(b, frac_nbits)
+        }
+        pub fn $div(a: $T, b: $T, frac_nbits: u32) -> ($T, bool) {
+            a.div_overflow(b, frac_nbits)
+        }
+    )* };
+}
+int_hooks! {
+    i8, to_fixed_helper_i8, mul_overflow_i8, div_overflow_i8;
+    i16, to_fixed_helper_i16, mul_overflow_i16, div_overflow_i16;
+    i32, to_fixed_helper_i32, mul_overflow_i32, div_overflow_i32;
+    i64, to_fixed_helper_i64, mul_overflow_i64, div_overflow_i64;
+    i128, to_fixed_helper_i128, mul_overflow_i128, div_overflow_i128;
+    u8, to_fixed_helper_u8, mul_overflow_u8, div_overflow_u8;
+    u16, to_fixed_helper_u16, mul_overflow_u16, div_overflow_u16;
+    u32, to_fixed_helper_u32, mul_overflow_u32, div_overflow_u32;
+    u64, to_fixed_helper_u64, mul_overflow_u64, div_overflow_u64;
+    u128, to_fixed_helper_u128, mul_overflow_u128, div_overflow_u128;
+}
+
+macro_rules! wide_div_hooks {
+    ($($S:ident, $U:ident, $name:ident;)*) => { $(
+        pub fn $name(d: $S, hi: $S, lo: $U) -> (($S, $U), $S) {
+            d.div_rem_from((hi, lo))
+        }
+    )* };
+}
+wide_div_hooks! {
+    u8, u8, div_rem_from_u8; u16, u16, div_rem_from_u16; u32, u32, div_rem_from_u32;
+    u64, u64, div_rem_from_u64; u128, u128, div_rem_from_u128;
+    i8, u8, div_rem_from_i8; i16, u16, div_rem_from_i16; i32, u32, div_rem_from_i32;
+    i64, u64, div_rem_from_i64; i128, u128, div_rem_from_i128;
+}
+
+pub use crate::display::verif_hook::{FmtDec, FmtRadix2};
+pub use crate::from_str::verif_hook::*;
